@@ -172,6 +172,11 @@ impl Prop for C08 {
             sorted.sort();
             if sorted == expect {
                 ms = expect.clone();
+            } else if c.cfg.noborders {
+                // without borders nothing separates the cells of a row: a marker hard-wrapped inside one cell cannot be told
+                // from its neighbour's ("[1      2]" over "]"); the in-text check is undecidable here, the footnote list
+                // below is still checked in full and the correspondence compares the whole output
+                ms = expect.clone();
             }
         }
         if ms != expect && side_by_side {
